@@ -118,21 +118,26 @@ def _read_back(parsed: Any, name: str) -> Any:
 _NO_READBACK = {'indent_by', 'postings', 'directives'}
 
 
-def check_values(key: str, args: dict, parsed: Any, res: core.CaseResult, where: str, mini: dict) -> None:
-    """from_value took plain values: the parsed model's value properties read them back"""
+def expected_values(key: str, args: dict) -> dict:
+    """what each value property is expected to read, from a fresh decode of the arguments"""
     cls, ctor, names, _ = ctor_info(key)
     ctx = dm.call_ctx(args, dm.TOP_CTX) if ('indent' in args or 'indent_by' in args) else dm.TOP_CTX
+    out = {}
     for name in names:
-        if name in _NO_READBACK or name not in args:
-            continue
-        if not hasattr(type(parsed), name):
-            res.counters[f'no value property {cls.__name__}.{name}'] += 1
+        if name in _NO_READBACK or name not in args or not hasattr(cls, name):
             continue
         expected = _norm_value(dm.decode(args[name], ctx))
         if name == 'meta' and expected is None:
             expected = []
         if name == 'narration' and expected is None and args.get('payee') is not None and cls is M.Transaction:
             expected = ''     # by design: a payee needs a narration
+        out[name] = expected
+    return out
+
+
+def check_values(key: str, expected: dict, parsed: Any, res: core.CaseResult, where: str, mini: dict) -> None:
+    """from_value took plain values: the model's value properties read them back"""
+    for name, exp in expected.items():
         try:
             got = _read_back(parsed, name)
         except Exception as e:  # noqa
@@ -140,9 +145,9 @@ def check_values(key: str, args: dict, parsed: Any, res: core.CaseResult, where:
                      f'{key}: reading .{name} of the {where} raises {type(e).__name__}: {e}', mini)
             continue
         res.transitions += 1
-        if got != expected:
+        if got != exp:
             res.fail(f'C15/value-readback[{name}]',
-                     f'{key}: given {name}={expected!r}, the {where} reads {got!r} (text {tree.pr(parsed)!r})', mini)
+                     f'{key}: given {name}={exp!r}, the {where} reads {got!r} (text {tree.pr(parsed)!r})', mini)
 
 
 def check_same_values(key: str, m: Any, parsed: Any, res: core.CaseResult, mini: dict) -> None:
@@ -267,9 +272,10 @@ def run_ctor_case(case: dict, res: core.CaseResult) -> None:
     if parsed is None:
         return
     text = tree.pr(m)
+    expected = expected_values(key, args) if ctor == 'from_value' else {}
     if ctor == 'from_value':
-        check_values(key, args, parsed, res, 'parsed model', mini)
-        check_values(key, args, m, res, 'constructed model', mini)
+        check_values(key, expected, parsed, res, 'parsed model', mini)
+        check_values(key, expected, m, res, 'constructed model', mini)
     else:
         check_same_values(key, m, parsed, res, mini)
     hk = core.h64((key, text))
@@ -294,7 +300,7 @@ def run_ctor_case(case: dict, res: core.CaseResult) -> None:
             if len(ds) != 1 or type(ds[0]) is not cls:
                 res.fail(f'C15/in-file-directives[{key}]', f'file of one {cls.__name__} parses to directives {ds!r}', mini)
             elif ctor == 'from_value':
-                check_values(key, args, ds[0], res, 'directive parsed inside a file', mini)
+                check_values(key, expected, ds[0], res, 'directive parsed inside a file', mini)
 
 
 def judge_file(f: Any, res: core.CaseResult, mini: dict, what: str, *, site: str) -> Optional[Any]:
@@ -425,8 +431,11 @@ def file_elements() -> list[Any]:
 
 def main(run: core.Run) -> None:
     quick = run.tier == 'quick'
-    full_limit = 3000 if quick else 70000
+    full_limit = 3000 if quick else 20000
     strength = 2 if quick else 3
+    # hand-written constructors with logic of their own get one more level of interaction in the thorough tier
+    extra_strength = {} if quick else {k: 4 for k in ('Transaction.from_value', 'Transaction.from_children',
+                                                       'Custom.from_value', 'Custom.from_children')}
     keys = all_ctor_keys()
     items: list[dict] = []
     covered: dict[str, str] = {}
@@ -435,7 +444,7 @@ def main(run: core.Run) -> None:
         cls, ctor, names, doms = ctor_info(key)
         unresolved += [f'{key}({n})' for n, _, ok in dm.signature_kinds(cls, ctor) if not ok]
         sizes = [len(d) for d in doms]
-        how, rows = rows_for(sizes, full_limit, strength)
+        how, rows = rows_for(sizes, full_limit, extra_strength.get(key, strength))
         covered[key] = f'{how}: {len(rows)} of {math.prod(sizes)} rows, domain sizes {dict(zip(names, sizes))}'
         items += [{'k': key, 'ix': list(r)} for r in rows]
     run.log(f'{len(keys)} constructors, {len(items)} argument rows '
@@ -470,6 +479,7 @@ def main(run: core.Run) -> None:
         'constructors': len(keys),
         'full_product_limit': full_limit,
         'interaction_strength_above_limit': strength,
+        'interaction_strength_overrides': extra_strength,
         'coverage_per_constructor': covered,
         'covered_in_full': sorted(k for k, v in covered.items() if v.startswith('full')),
         'covered_t_wise': sorted(k for k, v in covered.items() if not v.startswith('full')),
@@ -477,6 +487,18 @@ def main(run: core.Run) -> None:
         'file_cases': len(fitems),
         'type_hints_resolved_by_parameter_name': unresolved,
     })
+    no_prop = []
+    for key in keys:
+        cls, ctor, names, _ = ctor_info(key)
+        if ctor == 'from_value':
+            no_prop += [f'{key}({n})' for n in names if n not in _NO_READBACK and not hasattr(cls, n)]
+    run.bounds['from_value_parameters_without_value_property'] = no_prop
+    twise = [k for k, v in covered.items() if not v.startswith('full')]
+    if twise:
+        run.caps_hit.append(f'the full argument product exceeds {full_limit} rows for {len(twise)} constructors '
+                            f'({", ".join(twise)}); these are covered t-wise (all value combinations of every t parameters '
+                            'over the all-absent and the all-present row, plus every subset of parameters at its richest '
+                            'value) instead of in full')
     run.assumptions = [
         'in-domain arguments: values from the per-role domains of c15_domains.TABLE; indentation of comment and meta '
         'children handed to from_children follows the indent/indent_by arguments of the same call',
